@@ -1,6 +1,7 @@
 SPECIFICATION TraceSpec
 CONSTANTS
   Modes = {"tcp", "udp", "dec"}
+  LogLevels = {"info", "debug"}
   MaxPkts = 1000000
   ValidateKnown = TRUE
   TcpDests <- BehTcpDests
